@@ -26,6 +26,18 @@
 //! then, after expiry, every sequence of length <= 3/4 over the alphabet above plus
 //! complete_commit / complete_abort.
 //!
+//! `recover()` is also an ACTION of the alphabet ("r"), in the begin configurations and in the Committing pre-state
+//! configurations (C03.recover.decision_stable).  Contract, from the property ("the coordinator decides at most once ...
+//! and the decision never changes afterwards"): a transaction whose decision is taken (Committing, Aborting; Committed /
+//! Aborted transactions are no longer listed) keeps its phase, votes, participants and locks and is not queued for an
+//! abort broadcast, whatever the clock says -- in particular a Committing transaction that is past its timeout stays
+//! Committing.  An undecided transaction (Preparing / Prepared) that is past its timeout MAY be moved to Aborting (the
+//! abort decision; its locks stay until the abort is carried out): every subset of the expired undecided transactions is
+//! a permitted outcome and the ghost follows the one the coordinator shows.  (Prepared + all yes + NOT expired =>
+//! Committing is the rule used to build the Committing pre-state; with timeout 0 nothing is unexpired inside a sequence.)
+//! Nothing else changes: pending_count, every other transaction, every lock holder; only a transaction moved by this very
+//! call may appear in the abort queue.
+//!
 //! Participant part (C03.part.apply_iff_commit): a real `TxParticipant` over an in-memory store
 //! {k0 = v0}; two transactions, each with one of 5 operation lists (Put existing, Put new, Delete,
 //! Put+Delete, CompareAndSwap); every sequence of length <= 5/6 over {prepare, commit, abort} x 2 tx;
@@ -72,6 +84,7 @@ const O_ONCE: &str = "C03.abort.once";
 const O_TIMEOUT: &str = "C03.timeout.broadcast";
 const O_PART: &str = "C03.part.apply_iff_commit";
 const O_DURABLE: &str = "C03.decision.durable_consistent";
+const O_RECOVER: &str = "C03.recover.decision_stable";
 
 type Checks = Vec<(&'static str, bool, String)>;
 
@@ -83,7 +96,7 @@ type Checks = Vec<(&'static str, bool, String)>;
 enum V { Yes, No, Conflict }
 
 #[derive(Clone, Copy, PartialEq, Eq, Debug)]
-enum Act { Vote(usize, usize, V), Commit(usize), Abort(usize), Sweep, Complete(usize), CompleteAbort(usize) }
+enum Act { Vote(usize, usize, V), Commit(usize), Abort(usize), Sweep, Complete(usize), CompleteAbort(usize), /** the public `recover()` */ Recover }
 
 impl Act {
     fn enc(&self) -> String {
@@ -94,10 +107,12 @@ impl Act {
             Act::Sweep => "t".to_string(),
             Act::Complete(i) => format!("cc{i}"),
             Act::CompleteAbort(i) => format!("ca{i}"),
+            Act::Recover => "r".to_string(),
         }
     }
     fn dec(s: &str) -> Option<Act> {
         if s == "t" { return Some(Act::Sweep); }
+        if s == "r" { return Some(Act::Recover); }
         if let Some(r) = s.strip_prefix("cc") { return r.parse().ok().map(Act::Complete); }
         if let Some(r) = s.strip_prefix("ca") { return r.parse().ok().map(Act::CompleteAbort); }
         if let Some(r) = s.strip_prefix('c') { return r.parse().ok().map(Act::Commit); }
@@ -135,6 +150,7 @@ impl Cfg {
             if self.committing { a.push(Act::Complete(i)); a.push(Act::CompleteAbort(i)); }
         }
         a.push(Act::Sweep);
+        a.push(Act::Recover);
         a
     }
     fn json(&self, seq: &[Act]) -> Value {
@@ -356,7 +372,21 @@ fn model(g: &mut Ghost, cfg: &Cfg, act: Act, delivered: Option<V>) -> (Ret, Vec<
             g.txs[i].phase = GP::Gone;
             (Ret::Unit(true), vec![])
         },
+        Act::Recover => {
+            // every pending tx is expired.  A taken decision (Committing, Aborting) stays whatever the clock says; an
+            // undecided tx (Preparing / Prepared) that is past its timeout is moved to Aborting (this is the reading in
+            // which EVERY undecided tx is moved; `model_alts` adds the readings in which some of them are left alone).
+            // Locks stay with the tx until the abort is carried out (abort / complete_abort / cleanup_timeouts).
+            let moved = undecided(g);
+            for i in &moved { g.txs[*i].phase = GP::Aborting; g.txs[*i].decision = Some(false); }
+            (Ret::Unit(true), moved)
+        },
     }
+}
+
+/// pending transactions without a decision (Preparing / Prepared)
+fn undecided(g: &Ghost) -> Vec<usize> {
+    (0..g.txs.len()).filter(|i| matches!(g.txs[*i].phase, GP::Preparing | GP::Prepared) && g.txs[*i].decision.is_none()).collect()
 }
 
 /// One permitted outcome of a call: ghost after the call, return value, transactions queued for abort broadcast.
@@ -391,6 +421,19 @@ fn model_alts(g: &Ghost, cfg: &Cfg, act: Act, delivered: Option<V>) -> Vec<Alt> 
             return vec![first];
         }
     }
+    if act == Act::Recover {
+        // an expired undecided tx MAY become Aborting: every subset of them is a permitted outcome (the full set first);
+        // `queue` lists the transactions that MAY be queued for the abort broadcast by this call (the moved ones)
+        let u = undecided(g);
+        let mut alts = vec![];
+        for mask in (0..(1u32 << u.len())).rev() {
+            let mut g2 = g.clone();
+            let moved: Vec<usize> = u.iter().enumerate().filter(|(k, _)| (mask >> k) & 1 == 1).map(|(_, i)| *i).collect();
+            for i in &moved { g2.txs[*i].phase = GP::Aborting; g2.txs[*i].decision = Some(false); }
+            alts.push(Alt { ghost: g2, ret: Ret::Unit(true), queue: moved });
+        }
+        return alts;
+    }
     vec![strict()]
 }
 
@@ -408,12 +451,14 @@ fn step(b: &mut Built, cfg: &Cfg, act: Act, check: bool) -> (Checks, bool) {
     let pre_view = if check { Some(observe(b, cfg)) } else { None };
     let alts = model_alts(&b.ghost, cfg, act, delivered);
 
+    let mut note = String::new();
     let real_ret = match act {
         Act::Vote(i, s, _) => Ret::Vote(b.coord.record_vote(b.ids[i], s, msg.clone().expect("msg")).map_err(|_| ())),
         Act::Commit(i) => Ret::Unit(b.coord.commit(b.ids[i]).is_ok()),
         Act::Abort(i) => Ret::Unit(b.coord.abort(b.ids[i], "requested").is_ok()),
         Act::Complete(i) => Ret::Unit(b.coord.complete_commit(b.ids[i]).is_ok()),
         Act::CompleteAbort(i) => Ret::Unit(b.coord.complete_abort(b.ids[i]).is_ok()),
+        Act::Recover => { let st = b.coord.recover(); note = format!("; recover() returned {st:?}"); Ret::Unit(true) },
         Act::Sweep => {
             let r = b.coord.cleanup_timeouts();
             let set: BTreeSet<usize> = r.iter().filter_map(|id| b.ids.iter().position(|x| x == id)).collect();
@@ -438,6 +483,8 @@ fn step(b: &mut Built, cfg: &Cfg, act: Act, check: bool) -> (Checks, bool) {
         match act {
             // abort(): the contract only demands that no *other* transaction is queued
             Act::Abort(i) => q_ids.iter().all(|e| *e == Some(i)) && parts_ok,
+            // recover(): only a tx that this call moved to Aborting may be queued, at most once
+            Act::Recover => q_ids.iter().all(|e| want.contains(e)) && q_ids.windows(2).all(|w| w[0] != w[1]) && parts_ok,
             _ => q_ids == want && parts_ok,
         }
     };
@@ -451,9 +498,10 @@ fn step(b: &mut Built, cfg: &Cfg, act: Act, check: bool) -> (Checks, bool) {
     let exp_view = expect_view(&b.ghost, &b.ids, cfg);
     let pre_ok = pre_view.as_ref() == Some(&expect_view(&pre_ghost, &b.ids, cfg));
     let detail = format!(
-        "call {} on ghost {:?}: returned {:?}, contract {:?}; view after {:?}, contract {:?}; abort queue {:?}, contract {:?}{}{}",
-        act.enc(), pre_ghost.txs, real_ret, exp_ret, post_view, exp_view, q, exp_queue,
-        if n_alts > 1 { format!(" [{n_alts} outcomes are permitted here (non-participant vote); the first is shown]") } else { String::new() },
+        "call {} on ghost {:?}: returned {:?}, contract {:?}; view after {:?}, contract {:?}; abort queue {:?}, contract {:?}{}{}{}",
+        act.enc(), pre_ghost.txs, real_ret, exp_ret, post_view, exp_view, q, exp_queue, note,
+        if n_alts > 1 && act == Act::Recover { format!(" [{n_alts} outcomes are permitted here (each expired undecided tx may or may not be moved to Aborting); the first is shown]") }
+        else if n_alts > 1 { format!(" [{n_alts} outcomes are permitted here (non-participant vote); the first is shown]") } else { String::new() },
         if pre_ok { "" } else { " [pre-state already differed from the ghost]" });
     let all_ok = pre_ok && hit.is_some();
     let decided_commit = |i: usize| pre_ghost.txs[i].decision == Some(true);
@@ -474,6 +522,15 @@ fn step(b: &mut Built, cfg: &Cfg, act: Act, check: bool) -> (Checks, bool) {
                 let kept = committed.iter().all(|i| post_view.txs[*i] == pre_view.as_ref().expect("pre").txs[*i]);
                 out.push((O_ONCE, !listed && !queued && kept, detail));
             }
+        },
+        Act::Recover => {
+            // transactions whose decision is taken (Committing / Aborting; all of them are past their timeout here)
+            let decided: Vec<usize> = (0..pre_ghost.txs.len()).filter(|i| pre_ghost.txs[*i].phase != GP::Gone && pre_ghost.txs[*i].decision.is_some()).collect();
+            nontrivial = !decided.is_empty();
+            let pv = pre_view.as_ref().expect("pre");
+            let held = |v: &View, i: usize| -> Vec<String> { v.locks.iter().filter(|(_, h)| **h == Some(b.ids[i])).map(|(k, _)| k.clone()).collect() };
+            let stable = decided.iter().all(|i| post_view.txs[*i] == pv.txs[*i] && held(&post_view, *i) == held(pv, *i) && !q_ids.contains(&Some(*i)));
+            out.push((O_RECOVER, all_ok && stable, detail));
         },
     }
     (out, nontrivial)
@@ -911,7 +968,7 @@ pub fn run(tier: Tier, _seed: u64) -> Report {
     let cfgs = configs(tier);
     let plen = if tier == Tier::Thorough { 6 } else { 5 };
     let dom = format!(
-        "coordinator: every call sequence from begin (last call contract-checked) over {{vote(tx,shard,Yes|No|Conflict) incl. duplicate/late votes, commit, abort, cleanup_timeouts (timeout 0, all expired)}} for (tx,shards,maxlen) = {}; Committing pre-states (built with recover()) with the same alphabet + complete_commit/complete_abort for {}; participant: 5x5 operation lists for 2 tx, every sequence of length <= {plen} over {{prepare,commit,abort}}x2 on a store {{k0}}; WAL faults: real TxWal with a byte budget (auto_rotate off), script begin / v Yes votes / commit (v = all) or abort (v = 0..all) over {} shards, the k-th append of the final call and all later ones fail, for EVERY k (and k = 0: no fault); participants written '3 of {{0,1}}' are a strict subset of the shards, the other shard's votes are in the alphabet",
+        "coordinator: every call sequence from begin (last call contract-checked) over {{vote(tx,shard,Yes|No|Conflict) incl. duplicate/late votes, commit, abort, cleanup_timeouts (timeout 0, all expired), recover()}} for (tx,shards,maxlen) = {}; Committing pre-states (built with recover()) with the same alphabet + complete_commit/complete_abort for {}; participant: 5x5 operation lists for 2 tx, every sequence of length <= {plen} over {{prepare,commit,abort}}x2 on a store {{k0}}; WAL faults: real TxWal with a byte budget (auto_rotate off), script begin / v Yes votes / commit (v = all) or abort (v = 0..all) over {} shards, the k-th append of the final call and all later ones fail, for EVERY k (and k = 0: no fault); participants written '3 of {{0,1}}' are a strict subset of the shards, the other shard's votes are in the alphabet",
         cfgs.iter().filter(|(c, _)| !c.committing).map(|(c, l)| format!("({},{}{},<={l})", c.ntx, shards_txt(c), if c.overlap { ",shared key" } else { "" })).collect::<Vec<_>>().join(" "),
         cfgs.iter().filter(|(c, _)| c.committing).map(|(c, l)| format!("({},{},<={l})", c.ntx, shards_txt(c))).collect::<Vec<_>>().join(" "),
         if tier == Tier::Thorough { "1-4" } else { "2-3" });
@@ -924,6 +981,7 @@ pub fn run(tier: Tier, _seed: u64) -> Report {
     rep.declare(O_ONCE, "DistributedTxCoordinator::abort / cleanup_timeouts");
     rep.declare(O_TIMEOUT, "DistributedTxCoordinator::cleanup_timeouts / take_pending_aborts");
     rep.declare(O_PART, "TxParticipant::{prepare,commit,abort}");
+    rep.declare(O_RECOVER, "DistributedTxCoordinator::recover (as a call on a live coordinator, all transactions past their timeout)");
     rep.declare(O_DURABLE, "DistributedTxCoordinator::{commit,abort} on a TxWal whose k-th append fails; then abort / commit / cleanup_timeouts / take_pending_aborts / recover_from_wal");
     for (cfg, maxlen) in &cfgs { run_coord(&mut rep, cfg, *maxlen); }
     run_part(&mut rep, plen);
@@ -932,7 +990,7 @@ pub fn run(tier: Tier, _seed: u64) -> Report {
     rep.sample(Cfg { nsh: 3, parts: 0b011, ..c }.json(&[Act::Vote(0, 2, V::Yes), Act::Vote(0, 0, V::Yes), Act::Commit(0)]));
     rep.sample(c.json(&[Act::Vote(0, 0, V::Yes), Act::Vote(0, 1, V::Yes), Act::Commit(0), Act::Abort(0)]));
     rep.sample(c.json(&[Act::Vote(0, 0, V::Yes), Act::Vote(0, 1, V::No), Act::Sweep]));
-    rep.sample(Cfg { committing: true, ..c }.json(&[Act::Sweep, Act::Abort(0), Act::Complete(0)]));
+    rep.sample(Cfg { committing: true, ..c }.json(&[Act::Sweep, Act::Abort(0), Act::Recover]));
     rep.sample(WalCase { nsh: 2, votes: 2, commit: true, k: 2 }.json());
     rep.sample(part_json([0, 3], &[PAct::Prepare(0), PAct::Prepare(1), PAct::Abort(0), PAct::Prepare(1), PAct::Commit(1)]));
     rep
